@@ -916,13 +916,30 @@ fn cmd_run(o: &Opts) -> i32 {
                     }
                     for when in 1..=max {
                         for errno in [None, Some(errno.to_string())] {
-                            // quick: a seeded 1-in-8 sample keeps the injector exercised on every change
-                            if quick && !r.chance(1, 8) {
+                            // quick: a seeded sample keeps the injector exercised on every change (errnos
+                            // 1 in 8; kills 1 in 30: they cannot use the cheap seccomp filter, and the
+                            // hook-level kills already cover the repository's own steps)
+                            if quick && !r.chance(1, if errno.is_some() { 8 } else { 30 }) {
                                 continue;
                             }
                             let seed = derive(o.seed, "C15-sys", sys.len() as u64);
                             sys.push(gen::c15_cell(&ctx, tag, s, vec![Fault::Syscall { call: call.to_string(), when, errno }], subset.clone(), seed));
                         }
+                    }
+                }
+            }
+            // interrupted system calls: not a fault to recover from but one nobody may notice
+            for (tag, s) in &sstates {
+                for (call, max) in gen::eintr_sites() {
+                    if !inject_spec_ok(call, "EINTR") {
+                        continue;
+                    }
+                    for when in 1..=max {
+                        if quick && !r.chance(1, 8) {
+                            continue;
+                        }
+                        let seed = derive(o.seed, "C15-sys", sys.len() as u64);
+                        sys.push(gen::c15_cell(&ctx, tag, s, vec![Fault::Syscall { call: call.to_string(), when, errno: Some("EINTR".into()) }], subset.clone(), seed));
                     }
                 }
             }
